@@ -394,7 +394,9 @@ class Design:
         self.hierarchy = hierarchy
         self.fragments: dict[Fragment, DesignFragmentInfo] = {}
         self.signal_lca = _ast.SignalDict()
-        self.elaboratables: dict[Elaboratable, Fragment] = {}
+        # Keyed by `id()`: an elaboratable is identified by the object itself, however its class defines
+        # `__eq__` and `__hash__` (e.g. a dataclass). The values keep the elaboratable alive.
+        self.elaboratables: dict[int, tuple[Elaboratable, Fragment]] = {}
         self._compute_fragment_depth_parent(fragment, None, 0)
         self._collect_used_signals(fragment)
         self._add_io_ports()
@@ -616,12 +618,12 @@ class Design:
 
         if fragment.origins is not None:
             for origin in fragment.origins:
-                if origin in self.elaboratables:
-                    other_hierarchy = self.fragments[self.elaboratables[origin]].name
+                if id(origin) in self.elaboratables:
+                    other_hierarchy = self.fragments[self.elaboratables[id(origin)][1]].name
                     raise DuplicateElaboratable(f"Elaboratable {origin!r} is included twice "
                                                 f"in the hierarchy, as {'.'.join(other_hierarchy)} "
                                                 f"and {'.'.join(hierarchy)}")
-                self.elaboratables[origin] = fragment
+                self.elaboratables[id(origin)] = (origin, fragment)
 
         if fragment is self.fragment:
             # Reserve names for top-level ports. If equal to the signal name, let the signal share it.
@@ -662,7 +664,7 @@ class Design:
             raise KeyError("comb")
         if context is not None:
             try:
-                fragment = self.elaboratables[context]
+                _context, fragment = self.elaboratables[id(context)]
             except KeyError:
                 raise ValueError(f"Elaboratable {context!r} is not a part of the design")
         else:
